@@ -155,6 +155,7 @@ def run(run, ix, tier):
     run.rule('D-R1e', floor=1, desc='pure-of-key cache')
     run.rule('D-R2', floor=4, desc='constant_memo gate/shift/store order')
     run.rule('D-LU', floor=2, desc='LU cache precision tag')
+    run.rule('D-LU4', floor=1, desc='LU factors are reused at the precision of their singularity test only')
     run.rule('D-R4', floor=5, desc='matrix mutators drop the cached LU')
     run.rule('D-R3', floor=2, desc='no cross-context storage')
     run.rule('D-R6', floor=1, desc='memoize key completeness')
@@ -210,6 +211,8 @@ def run(run, ix, tier):
     check_guarded_partial_key(run, ix)
     check_lu_overwrite(run, ix)
     check_memoize_hit(run, ix)
+    run.rule('D-R6m', floor=1, desc='memoize does not share a mutable result with its first caller')
+    check_memoize_aliasing(run, ix)
     check_call_local_rules(run, ix)
     check_partial_stores(run, ix)
     check_gate_last(run, ix)
@@ -801,6 +804,34 @@ def check_lu(run, ix):
             run.fail(Finding('D-LU', rel, f.qualname, norm(r),
                              'cached LU factors are reused without comparing the precision they '
                              'were computed at with the current one', line=r.lineno))
+    # D-LU4 (fourth C33 hunt; repair 10a4368): the factorisation REJECTS a matrix by a test against a tolerance derived
+    # from ctx.eps (numerically singular).  Factors cached at a higher precision would answer where a fresh computation
+    # at the present precision raises: such a result is reusable at the SAME precision only.
+    eps_names = set()
+    for x in _walk_own(f.node):
+        if isinstance(x, ast.Assign) and len(x.targets) == 1 and isinstance(x.targets[0], ast.Name) and \
+                any(isinstance(y, ast.Attribute) and y.attr == 'eps' for y in ast.walk(x.value)):
+            eps_names.add(x.targets[0].id)
+    rejects = [i for i in _walk_own(f.node) if isinstance(i, ast.If) and
+               any(isinstance(y, ast.Name) and y.id in eps_names for y in ast.walk(i.test)) and
+               any(isinstance(b, ast.Raise) for b in i.body)]
+    if rejects:
+        def eq_gate(c):
+            n = compare_norm(c, is_tag, is_req)
+            return n is not None and n[0] is ast.Eq
+        for r in hits:
+            if gated_by(r, eq_gate, f.node):
+                run.ok('D-LU4', 'the computation rejects by a precision-dependent test (line %d): cached factors are '
+                       'reused at the same precision only' % rejects[0].lineno)
+            else:
+                run.fail(Finding('D-LU4', rel, f.qualname, norm(r),
+                                 'the factorisation raises for a pivot below a tolerance derived from ctx.eps (`%s`), but '
+                                 'factors cached at a HIGHER precision are handed out at a lower one: '
+                                 'lu([[1, 1], [1, 1 + 2**-80]]) at 53 bits raises ZeroDivisionError in a fresh process and '
+                                 'returns factors (with 100-bit entries) after the same call at 100 bits'
+                                 % norm(rejects[0].test, 50), line=r.lineno))
+    else:
+        run.ok('D-LU4', 'no precision-dependent rejection in the factorisation')
     # the store records the precision together with the factors
     stores = [x for x in _walk_own(f.node) if isinstance(x, ast.Assign) and
               any(isinstance(t, ast.Attribute) and t.attr == '_LU' for t in x.targets)]
@@ -885,16 +916,20 @@ def check_lu_aliasing(run, f, hits, cached_names):
 
 
 class LUState(FlowAnalysis):
-    """typestate of self._LU inside one _matrix method: 'clean' (cache empty
-    or consistent) / 'dirty' (payload mutated since)"""
+    """typestate of self._LU inside one _matrix method: 'held' (the cache may hold factors of the present entries) /
+    'dropped' (self._LU = None has run).  A mutation of the payload in state 'held' is the violation: whatever comes
+    after it -- an exception raised between the change and a later `self._LU = None` included -- leaves factors of the
+    OLD entries with the NEW matrix.  (Fourth C33 hunt: the earlier form of the rule asked for the drop on every NORMAL
+    exit only, and the setters dropped the cache last.)"""
 
     def __init__(self, selfname, fresh):
         self.selfname = selfname
         self.fresh = fresh
         self.sites = []
+        self.bad = []
 
     def join(self, a, b):
-        return a if a == b else 'dirty'
+        return a if a == b else 'held'
 
     def _mut(self, node):
         s = self.selfname
@@ -916,16 +951,19 @@ class LUState(FlowAnalysis):
         if isinstance(node, ast.Assign) and any(norm(t) == '%s._LU' % self.selfname
                                                 for t in node.targets):
             if isinstance(node.value, ast.Constant) and node.value.value is None:
-                return 'clean', state
+                return 'dropped', state
+            return 'held', state
         if self._mut(node):
             self.sites.append(node)
-            return 'dirty', state
+            if state != 'dropped' and node not in self.bad:
+                self.bad.append(node)
+            return state, state
         return state, state
 
     def cond(self, test, state):
         if norm(test) == '%s._LU' % self.selfname:
             # false branch: the cache is empty, nothing can be stale
-            return state, 'clean', state
+            return state, 'dropped', state
         return state, state, state
 
 
@@ -957,18 +995,18 @@ def check_matrix_typestate(run, ix):
         if name == '__set_element':
             # documented unsafe helper: callers are responsible (its calls count as mutations)
             continue
-        out = an.run(f.node.body, 'clean')
+        an.run(f.node.body, 'held')
         if not an.sites:
             continue
         n += 1
-        final = an.j(out.normal, out.ret)
-        if final == 'dirty':
-            run.fail(Finding('D-R4', rel, f.qualname, norm(an.sites[0]),
-                             'method changes the matrix contents/shape but can return without '
-                             'dropping the cached LU decomposition (stale factors would be reused)',
-                             line=an.sites[0].lineno))
+        if an.bad:
+            run.fail(Finding('D-R4', rel, f.qualname, norm(an.bad[0]),
+                             'the matrix contents/shape change while the cached LU decomposition may still be held: a '
+                             'return, or an exception, before a later `%s._LU = None` leaves the factors of the old entries '
+                             'with the new matrix (A[0,0] = 7 interrupted before its last statement: LU_decomp(A) returned '
+                             'the factors of the old A)' % s, line=an.bad[0].lineno))
         else:
-            run.ok('D-R4', '%s mutates and resets _LU on every normal exit' % f.qualname)
+            run.ok('D-R4', '%s drops _LU before its first change of the entries' % f.qualname)
     if n < 3:
         raise AnalysisError('matrix typestate: only %d mutating methods recognised' % n)
     # copy() must not alias the payload
@@ -1187,6 +1225,69 @@ def check_memoize_hit(run, ix):
                              'the hit path applies `%s` to the cached value with no fallback: for a function whose '
                              'value is not a number (a tuple of results) the second identical call raises '
                              'TypeError where the first returned' % norm(r.value, 30), line=r.lineno))
+
+
+def check_memoize_aliasing(run, ix):
+    """D-R6m (fourth C33 hunt; repair 7af2159): the miss path of memoize returns the computed value to the caller.  If the
+    same OBJECT goes into the cache and the value is mutable (a matrix), what the caller does to its result changes
+    every later hit.  Decided: every store `f_cache[key] = (prec, <v>)` whose <v> is the name the miss path returns
+    stands in the else-branch of (or after a return/continue under) an `isinstance(<v>, ctx.matrix)` test whose own
+    branch stores a copy (`<v>.copy()`, `+<v>`, `copy(<v>)`)."""
+    f = ix.func('mpmath/ctx_base.py', 'StandardBaseContext.memoize.f_cached')
+    stores = [x for x in _walk_own(f.node) if isinstance(x, ast.Assign) and
+              any(isinstance(t, ast.Subscript) and norm(t.value) == 'f_cache' for t in x.targets)]
+    if not stores:
+        raise AnalysisError('memoize: store not found')
+    returned = set(r.value.id for r in _walk_own(f.node) if isinstance(r, ast.Return) and isinstance(r.value, ast.Name))
+
+    def is_copy_of(e, name):
+        t = norm(e).replace(' ', '')
+        return t in ('%s.copy()' % name, '+%s' % name, 'copy(%s)' % name, 'copy.copy(%s)' % name,
+                     'copy.deepcopy(%s)' % name, 'deepcopy(%s)' % name)
+    for st in stores:
+        val = st.value.elts[-1] if isinstance(st.value, ast.Tuple) and st.value.elts else st.value
+        if not (isinstance(val, ast.Name) and val.id in returned):
+            if any(is_copy_of(val, n) for n in returned):
+                run.ok('D-R6m', 'the cache keeps a copy: `%s`' % norm(st, 60))
+            else:
+                run.ok('D-R6m', 'stored value is not the returned object: `%s`' % norm(st, 60))
+            continue
+        name = val.id
+        par = st._parent
+        ok = False
+        if isinstance(par, ast.If) and any(st is b for b in par.orelse):
+            t = norm(par.test).replace(' ', '')
+            if t.startswith('isinstance(%s,' % name) and 'matrix' in t:
+                bs = [x for b in par.body for x in ast.walk(b) if isinstance(x, ast.Assign) and
+                      any(isinstance(tg, ast.Subscript) and norm(tg.value) == 'f_cache' for tg in x.targets)]
+                if bs and all(is_copy_of(x.value.elts[-1] if isinstance(x.value, ast.Tuple) else x.value, name) for x in bs):
+                    ok = True
+        if not ok:
+            # the other way round: the cache keeps the object and a matrix leaves as a copy
+            bare = [r for r in _walk_own(f.node) if isinstance(r, ast.Return) and isinstance(r.value, ast.Name) and
+                    r.value.id == name and r.lineno > st.lineno]
+            def _guarded(r):
+                blk = getattr(r._parent, 'body', [])
+                for fld in ('body', 'orelse', 'finalbody'):
+                    b_ = getattr(r._parent, fld, None)
+                    if isinstance(b_, list) and any(r is y for y in b_):
+                        blk = b_
+                for prev in blk[:[i for i, y in enumerate(blk) if y is r][0]]:
+                    if isinstance(prev, ast.If):
+                        t_ = norm(prev.test).replace(' ', '')
+                        if t_.startswith('isinstance(%s,' % name) and 'matrix' in t_ and prev.body and \
+                                isinstance(prev.body[-1], ast.Return) and is_copy_of(prev.body[-1].value, name):
+                            return True
+                return False
+            if bare and all(_guarded(r) for r in bare):
+                ok = True
+        if ok:
+            run.ok('D-R6m', 'a matrix result is stored as a copy, other results as they are')
+        else:
+            run.fail(Finding('D-R6m', f.file, f.qualname, norm(st),
+                             'the object returned to the first caller is the object kept in the cache, matrices included: '
+                             'f = memoize(hilbert); A = f(2); A[0,0] = 99 makes every later f(2) return the changed matrix',
+                             line=st.lineno))
 
 
 def check_derived_with_key(run, ix):
